@@ -232,6 +232,8 @@ class JSONSerializer(AbstractIncrementalPacketSerializer[Any, Any]):
                     },
                 ) from exc
             raise DeserializeError(msg) from exc
+        except RecursionError as exc:
+            raise DeserializeError(f"JSON decode error: {exc}") from exc
         return packet
 
     @final
@@ -299,6 +301,8 @@ class JSONSerializer(AbstractIncrementalPacketSerializer[Any, Any]):
                     },
                 ) from exc
             raise IncrementalDeserializeError(msg, remaining_data) from exc
+        except RecursionError as exc:
+            raise IncrementalDeserializeError(f"JSON decode error: {exc}", remaining_data) from exc
         return packet, remaining_data
 
     @property
